@@ -325,7 +325,13 @@ Inductive case :=
        Observed: the messages on the stream, the follower's cache (sorted by id), its next index and the
        ids in its region storage (sorted, distinct) *)
 | CBcast (leader_persisted : option Z) (pending : list rinfo)
+         (msgs : list msg) (fcache : list rinfo) (fnext : Z)
+| CChain (leader_persisted : option Z) (leader_records regions : list rinfo)
+         (follower_persisted : option Z) (follower_stored : list rmeta) (pending : list rinfo)
          (msgs : list msg) (fcache : list rinfo) (fnext : Z).
+    (* a follower that starts with `follower_stored` in its own region storage (loaded into its cache by
+       LoadRegionsOnce, in id order), synchronises with the leader as in CSync, and then receives the broadcasts of
+       `pending` as in CBcast (its index no longer matches the leader's: it resets) *)
     (* a follower in sync with the leader at `leader_persisted`; `pending` is queued on the notifier
        channel before RunServer starts; observed: the broadcast messages and the follower *)
 
@@ -350,6 +356,17 @@ Definition model_sync (lp : option Z) (lrecs regions : list rinfo) (fp : option 
   let '(_, ms) := sync_history (buf lh) regions (next_index (buf (f_hist f0))) in
   let f := fold_left apply_msg ms f0 in
   SO ms (sort_by_id (f_cache f)) (next_index (buf (f_hist f))) (dedup_sorted (sortZ (map m_id (f_saved f)))).
+
+Definition model_chain (lp : option Z) (lrecs regions : list rinfo) (fp : option Z) (stored : list rmeta)
+                       (pending : list rinfo) : sync_out :=
+  let lh := leader_hist lp lrecs in
+  let f0 := finit Gen_C16.defaultHistoryBufferSize fp in
+  let cache0 := fold_left check_and_put (map (fun m => RI m None zero_stat) stored) [] in
+  let f1 := FS cache0 (rev stored) (f_hist f0) in
+  let '(_, ms1) := sync_history (buf lh) regions (next_index (buf (f_hist f0))) in
+  let ms2 := run_server_batches (S (length pending)) (next_index (buf lh)) pending in
+  let f := fold_left apply_msg (ms1 ++ ms2) f1 in
+  SO (ms1 ++ ms2) (sort_by_id (f_cache f)) (next_index (buf (f_hist f))) [].
 
 Definition model_bcast (lp : option Z) (pending : list rinfo) : sync_out :=
   let start := reload_index true lp in
@@ -395,6 +412,8 @@ Definition check_case (c : case) : option detail :=
       check_sync (model_sync lp lrecs regions fp) msgs fcache fnext (Some fsaved)
   | CBcast lp pending msgs fcache fnext =>
       check_sync (model_bcast lp pending) msgs fcache fnext None
+  | CChain lp lrecs regions fp stored pending msgs fcache fnext =>
+      check_sync (model_chain lp lrecs regions fp stored pending) msgs fcache fnext None
   end.
 
 Fixpoint mismatches_from (n : nat) (cs : list case) : list (nat * detail) :=
@@ -493,6 +512,9 @@ Definition monitor (c : case) : option string :=
       if negb (list_eqb Z.eqb (map snd (number_batches 0 msgs)) (map (fun r => m_id (meta r)) pending))
       then Some "C16:broadcast:sent-set-differs-from-notified-set"
       else mon_sent "broadcast" pending fcache (map (fun p => (O, snd p)) (number_batches 0 msgs))
+  | CChain lp lrecs regions fp stored pending msgs fcache fnext =>
+      (* whatever was sent, in either phase, must be held with the leader's newest version *)
+      mon_sent "sync+broadcast" (regions ++ pending) fcache (map (fun p => (O, snd p)) (number_batches 0 msgs))
   end.
 
 Fixpoint monitor_fails_from (n : nat) (cs : list case) : list (nat * string) :=
